@@ -410,6 +410,11 @@ def catalog_part(res, acc, rng, quick, rp):
                     "accepted" if want_off is None else "tag not found at offset %d" % want_off, "accepted" if got_v is None else got_v))
         if st == "err" and b"tag not found" in C.unhx(d.get("msg", "-")):
             dist["rejected_tag_not_found"] += 1
+        elif st == "err" and b'"Tags"' in C.unhx(d.get("msg", "-")) and origin.startswith("tags:"):
+            # every Tags directive of these documents stands where one may stand (in a method of any kind, in a URL block at any
+            # position among its children, HTTP or JSON-RPC): a diagnostic ABOUT the Tags directive itself is never right
+            bad(k, "a Tags directive may stand in every method and anywhere among the children of a URL block",
+                "rejected with %r" % C.unhx(d.get("msg", "-")).decode("latin1")[:120])
         stt, dt = P.parse(tr)
         if st != "ok" or stt != "ok":
             continue
